@@ -1,7 +1,7 @@
 #!/bin/sh
 # developer aid: confirm a seeded change (patch + demo) and run checks against it
 #   tools/seed_check.sh <dir with patch.diff, build.sh, demo.c> <unit-or-property>...
-D=$1; shift
+D=$(cd "$1" && pwd); shift
 M=$(mktemp -d /var/tmp/seedrepo-XXXXXX)
 trap 'rm -rf "$M"' EXIT
 rsync -a --exclude _build --exclude .git /repo/ "$M"/
